@@ -1,6 +1,7 @@
 import RV.Proofs.SyncCorr
 import RV.Proofs.SyncSaba
 import RV.Proofs.SyncMerc
+import RV.Proofs.SyncInt
 import Mathlib.Tactic.Ring
 /-
   C09 — deferred synchronisation never changes the physics.
@@ -258,6 +259,59 @@ theorem c09_eos_unsafe_sync_equals_safe_partial {E : Type} (S : ESem E) (L : ELa
 /-- EOS: `synchronize` twice = once -/
 theorem c09_eos_synchronize_twice_no_primitives (b : Bool) : (eSyncOps (eSyncOps b).2).1 = [] := by
   cases b <;> rfl
+
+/-! ### `reb_simulation_integrate`: `dt` is only assigned in a synchronised state -/
+
+/-- **WHFast.**  In the plan `reb_simulation_integrate` / `reb_check_exit` produce around the
+    steps (any number `n` of full steps, `k` of shortened last steps, either finish mode, any
+    options with `keep_unsynchronized = 0`, any start flags) every assignment to `r->dt` — the
+    shortened last step `dt = tmax - t`, the restore `dt = last_full_dt`, the sign change at
+    entry — is executed with `is_synchronized = 1`, i.e. is preceded by a synchronize with no step
+    in between, so that no pending half step is ever completed with a different `dt`.
+    Hypothesis `h`: the direction is not reversed on an unsynchronised simulation, *or* the entry
+    synchronises first (`syncFirst`, the repaired source).  For the source as found the hypothesis
+    is needed: `c09_integrate_reverse_unsynchronized_flips_dt`. -/
+theorem c09_whfast_integrate_dt_only_when_synchronized (c : Config) (hk : c.keep = false)
+    (n k : Nat) (exact reverse syncFirst : Bool) (f : Flags)
+    (h : reverse = true → syncFirst = true ∨ f.isSync = true) :
+    dtOk (fun f => (stepOps c f).2) (fun f => (syncOps c f).2) Flags.isSync
+      (integratePlan n k exact reverse syncFirst) f = true :=
+  dtOk_plan _ _ _ (syncOps_nokeep_isSync c hk) n k exact reverse syncFirst f h
+
+theorem c09_saba_integrate_dt_only_when_synchronized (c : SabaConfig) (hk : c.keep = false)
+    (n k : Nat) (exact reverse syncFirst : Bool) (f : Flags)
+    (h : reverse = true → syncFirst = true ∨ f.isSync = true) :
+    dtOk (fun f => (sabaStepOps c f).2) (fun f => (sabaSyncOps c f).2) Flags.isSync
+      (integratePlan n k exact reverse syncFirst) f = true := by
+  refine dtOk_plan _ _ _ (fun g => ?_) n k exact reverse syncFirst f h
+  unfold sabaSyncOps
+  cases hg : g.isSync <;> simp [hk, hg]
+
+theorem c09_mercurius_integrate_dt_only_when_synchronized (safe : Bool)
+    (n k : Nat) (exact reverse syncFirst : Bool) (f : MFlags)
+    (h : reverse = true → syncFirst = true ∨ f.isSync = true) :
+    dtOk (fun f => (mStepOps safe f).2) (fun f => (mSyncOps f).2) MFlags.isSync
+      (integratePlan n k exact reverse syncFirst) f = true := by
+  refine dtOk_plan _ _ _ (fun g => ?_) n k exact reverse syncFirst f h
+  unfold mSyncOps
+  cases hg : g.isSync <;> simp [hg]
+
+theorem c09_eos_integrate_dt_only_when_synchronized (safe : Bool)
+    (n k : Nat) (exact reverse syncFirst : Bool) (b : Bool)
+    (h : reverse = true → syncFirst = true ∨ b = true) :
+    dtOk (fun b => (eStepOps safe b).2) (fun b => (eSyncOps b).2) id
+      (integratePlan n k exact reverse syncFirst) b = true := by
+  refine dtOk_plan _ _ _ (fun g => ?_) n k exact reverse syncFirst b h
+  cases g <;> rfl
+
+/-- the source as found (`syncFirst = false`): reversing the direction of integration on an
+    unsynchronised simulation assigns `dt` while a half step is pending — finding
+    C09:integrate-reverse-unsynchronized, exhibited on the real code by the search -/
+theorem c09_integrate_reverse_unsynchronized_flips_dt (c : Config) (n k : Nat) (exact : Bool)
+    (f : Flags) (hf : f.isSync = false) :
+    dtOk (fun f => (stepOps c f).2) (fun f => (syncOps c f).2) Flags.isSync
+      (integratePlan n k exact true false) f = false := by
+  simp [integratePlan, dtOk, hf]
 
 /-! ### the hypotheses are satisfiable: a 1-D oscillator, integer time -/
 
